@@ -40,7 +40,11 @@ pub(crate) fn run() -> Result<(), Error> {
 
     let mut ps = ProcessState::init(env)?;
     let env2 = ps.env().clone();
-    let mut ptx = ProcessTransaction::new(&mut ps, TransactionBehavior::Deferred)?;
+    // The dirtiness walk notes on its way that a generated file has gone
+    // missing.  Nothing of that is kept (the transaction is rolled back), but a
+    // read transaction cannot turn into a writer once another command has
+    // committed in the meantime: be a writer from the start.
+    let mut ptx = ProcessTransaction::new(&mut ps, TransactionBehavior::Immediate)?;
     let cache: RefCell<HashSet<i64>> = RefCell::new(HashSet::new());
     let mut cb = DirtyCallbacksBuilder::new()
         .is_checked(|f, _| cache.borrow().contains(&f.id()))
